@@ -44,7 +44,7 @@ PROPS = {
     'C13': dict(streams=['scale', 'diatonic']),
     'C14': dict(streams=['chain']),
     'C15': dict(streams=['note', 'describe']),
-    'C16': dict(streams=['dict', 'note']),
+    'C16': dict(streams=['dict', 'note', 'write']),
     'C17': dict(streams=['scale', 'diatonic']),
 }
 
